@@ -21,7 +21,7 @@ SRC = os.path.join(V.REPO, "src", "xercesc")
 
 W1 = {"bool", "XMLByte", "char", "unsigned char", "signed char"}
 W2 = {"XMLCh", "short", "unsigned short", "XMLInt16", "XMLUInt16"}
-W4 = {"int", "unsigned int", "unsigned", "float", "XMLInt32", "XMLUInt32"}
+W4 = {"int", "unsigned int", "unsigned", "float", "XMLInt32", "XMLUInt32", "XSerializedObjectId_t"}
 W8 = {"long", "unsigned long", "double", "XMLSize_t", "size_t", "XMLSSize_t"}
 BENIGN = ("getMemoryManager", "getGrammarPool", "getStringPool", "isStoring", "isLoading", "getStorerLevel")
 
@@ -53,6 +53,7 @@ class Index:
     def __init__(self):
         self.classes = {}      # name -> {"bases": [...], "members": {name: type}, "file": ...}
         self.enums = set()
+        self.typedefs = {}
         for f in sorted(glob.glob(os.path.join(SRC, "**", "*.hpp"), recursive=True)):
             try:
                 t = strip_comments(open(f, errors="replace").read())
@@ -60,6 +61,8 @@ class Index:
                 continue
             for m in re.finditer(r"\benum\s+(\w+)", t):
                 self.enums.add(m.group(1))
+            for m in re.finditer(r"\btypedef\s+(\w+\s*<[^;{}]+>)\s+(\w+)\s*;", t):
+                self.typedefs[m.group(2)] = re.sub(r"\s+", "", m.group(1))
             for m in re.finditer(r"\bclass\s+(?:[A-Z_]+_EXPORT\s+|[A-Z]+_EXPORT\s+)?(\w+)\s*(?::\s*([^{;]*?))?\s*\{", t):
                 name = m.group(1)
                 try:
@@ -220,6 +223,8 @@ class Reader:
         m = re.match(r"^\(\s*([\w:\s]+?)\s*&?\s*\)\s*(.+)$", e)     # (int)x, (unsigned long&)x, (int)(..)
         if m and re.match(r"^[\w:\s]+$", m.group(1)) and not re.match(r"^\w+$", e):
             return " ".join(m.group(1).split()).split("::")[-1] if "::" in m.group(1) else " ".join(m.group(1).split())
+        if ctx.get("elem_type") and re.match(r"^\(?\*?\w+\)?\s*->\s*elementAt\s*\(", e):
+            return ctx["elem_type"]
         m = re.match(r"^(\w+)\s*(\[.*\])?$", e)
         if m:
             name = m.group(1)
@@ -236,7 +241,7 @@ class Reader:
     def wire_of_type(self, ty):
         if ty is None:
             return ("prim", "WUnknown", "?")
-        ty = ty.strip()
+        ty = ty.strip().rstrip("&").strip()
         if ty.endswith("*"):
             return ("obj", ty[:-1].strip(), ty)
         base = ty.split("::")[-1]
@@ -254,7 +259,7 @@ class Reader:
 
     def locals_of(self, body):
         loc = {}
-        for m in re.finditer(r"(?:^|[;{}])\s*((?:unsigned\s+|const\s+)?[\w:]+(?:\s*<[^;]*?>)?\s*[\*&]?)\s+(\w+)\s*(?:=[^;]*)?;", body):
+        for m in re.finditer(r"(?:^|(?<=[;{}]))\s*((?:unsigned\s+|const\s+)?[\w:]+(?:\s*<[^;]*?>)?\s*[\*&]*)\s+(\w+)\s*(?:=[^;]*)?;", body):
             ty = re.sub(r"\bconst\b", "", m.group(1)).strip().replace(" *", "*")
             if ty in ("return", "delete", "else", "new"):
                 continue
@@ -288,6 +293,11 @@ class Reader:
                 kind = self.wire_of_type(self.type_of(operand, ctx))
                 if kind[0] == "obj":
                     found.append((p, {"a": "AObj", "cls": kind[1].split("::")[-1], "field": operand, "type": kind[2]}))
+                elif "keyvars" in ctx:
+                    # container helper: a primitive that is one of the entry's keys carries its key position
+                    v = re.sub(r"^\(.*?\)\s*", "", operand)
+                    pos = ctx["keyvars"].get(v, 1 if "elementAt(" in operand else 0)
+                    found.append((p, {"a": "AKey", "wire": kind[1], "pos": pos, "field": operand, "type": kind[2]}))
                 else:
                     found.append((p, {"a": "APrim", "wire": kind[1], "field": operand, "type": kind[2]}))
                 if (opr == "<<") != store:
@@ -309,12 +319,17 @@ class Reader:
                 found.append((m.start(), {"a": "APrim", "wire": "WS", "field": args[0], "type": fn[fn.index("e") + 1:] if fn.startswith("write") else fn[4:]}))
             elif fn in BENIGN:
                 continue
+            elif fn == "registerObject" and "keyvars" in ctx and not store:
+                ctx["registered"] = ctx.get("registered", 0) + 1
+                continue
+            elif fn in ("lookupStorePool", "lookupLoadPool") and "keyvars" in ctx:
+                continue        # pool queries of the annotation table: no wire action
             else:
                 ctx["unparsed"].append("unknown engine call %s in: %s" % (fn, text))
                 continue
             if (fn.startswith("write")) != store and fn not in BENIGN:
                 ctx["unparsed"].append("direction mismatch: %s" % text)
-        for m in re.finditer(r"XTemplateSerializer\s*::\s*(storeObject|loadObject)\s*\(", text):
+        for m in re.finditer(r"(?:XTemplateSerializer\s*::\s*|(?<![\w:>.]))(storeObject|loadObject)\s*\(", text):
             q = match_brace(text, m.end() - 1, "(", ")")
             args = [a.strip() for a in split_args(text[m.end():q])]
             var = args[0].lstrip("&").strip()
@@ -322,6 +337,8 @@ class Reader:
             r = self.idx.lookup(ctx["cls"], var) or ((ctx["locals"].get(var), False) if var in ctx["locals"] else None)
             sig = r[0].rstrip("*").strip() if r else "?" + var
             sig = re.sub(r"\s+", "", sig).replace("xercesc::", "").replace("XERCES_CPP_NAMESPACE_QUALIFIER", "")
+            sig = re.sub(r"^(\w+)$", lambda mm: self.idx.typedefs.get(mm.group(1), mm.group(1)), sig)
+            sig = re.sub(r"<(\w+)>", lambda mm: "<" + self.idx.typedefs.get(mm.group(1), mm.group(1)) + ">", sig) if False else sig
             found.append((m.start(), {"a": "ATmpl", "sig": sig, "field": var}))
             if (m.group(1) == "storeObject") != store:
                 ctx["unparsed"].append("direction mismatch: %s" % text)
@@ -330,6 +347,11 @@ class Reader:
                 continue
             q = match_brace(text, m.end() - 1, "(", ")")
             if not re.search(r"\b%s\b" % eng, text[m.end():q]):
+                continue
+            if m.group(2) == "load" and m.group(3) == "Number" and "XMLNumber" in m.group(1):
+                # XMLNumber::loadNumber(type, serEng) dispatches to the typed operator>> of XMLBigDecimal/XMLFloat/...: the
+                # load-side form of `serEng << (XMLNumber*) p`
+                found.append((m.start(), {"a": "AObj", "cls": "XMLNumber", "field": "loadNumber(...)", "type": "XMLNumber* (dispatch)"}))
                 continue
             found.append((m.start(), {"a": "AHelper", "name": m.group(3), "field": text[m.end():q].strip()}))
             if (m.group(2) == "store") != store:
@@ -344,6 +366,8 @@ class Reader:
                 found.append((m.start(), {"a": "AMember", "cls": ty.split("::")[-1], "field": target}))
         if not found:
             rest = re.sub(r"\b%s\s*\.\s*(%s)\s*\(\s*\)" % (eng, "|".join(BENIGN)), "", text)
+            if "keyvars" in ctx:
+                rest = re.sub(r"\b%s\s*\.\s*(registerObject|lookupStorePool|lookupLoadPool)\s*\(" % eng, "(", rest)
             if re.search(r"\b%s\b" % eng, rest):
                 ctx["unparsed"].append("unrecognised use of the engine: %s" % text)
         found.sort(key=lambda x: x[0])
@@ -370,8 +394,16 @@ class Reader:
                 if want_store == store:
                     return self.walk(node[2], ctx, store)
                 return self.walk(node[3], ctx, store) if node[3] else []
-            if re.search(r"\b%s\b" % eng, cond):
+            pre = []
+            mt = re.match(r"^\s*%s\s*\.\s*needTo(Store|Load)Object\s*\(.*\)\s*$" % eng, cond, re.S)
+            if mt and "keyvars" in ctx and (mt.group(1) == "Store") == store:
+                pre = [{"a": "ATag"}]          # null tag / back reference / template tag
+            elif re.search(r"\b%s\b" % eng, cond) and not ("keyvars" in ctx and re.search(r"%s\s*\.\s*fGrammarPool\s*->\s*get\w+\(\)" % eng, cond)):
                 ctx["unparsed"].append("engine used in condition: %s" % cond)
+            if pre:
+                body = self.walk(node[2], ctx, store)
+                els0 = self.walk(node[3], ctx, store) if node[3] is not None else []
+                return pre + [("br", [body, els0])]
             alts = [self.walk(node[2], ctx, store)]
             els = node[3]
             while els is not None and els[0] == "if" and not re.search(r"isStoring|isLoading", els[1]):
@@ -394,11 +426,13 @@ class Reader:
 
 def split_args(s):
     out, d, cur = [], 0, ""
+    prev = ""
     for c in s:
         if c in "([<":
             d += 1
-        elif c in ")]>":
+        elif c in ")]" or (c == ">" and prev != "-"):
             d -= 1
+        prev = c
         if c == "," and d == 0:
             out.append(cur)
             cur = ""
@@ -417,6 +451,8 @@ def key_of(item):
     a = item["a"]
     if a == "APrim":
         return (a, item["wire"])
+    if a == "AKey":
+        return (a, item["wire"], item["pos"])
     if a == "AStr":
         return (a, item["withbuf"])
     if a in ("AObj", "ABase", "AMember"):
@@ -439,7 +475,9 @@ def normalise(items):
                 out.append(alts[0][0])
                 alts = [a[1:] for a in alts]
             # alternatives are compared as an ordered list after removing duplicates of the empty alternative at the end
-            if any(alts):
+            if alts and all(alts) and all([key_of(x) for x in a] == [key_of(x) for x in alts[0]] for a in alts):
+                out += alts[0]          # every alternative transfers the same items (e.g. read-and-discard vs read-and-keep)
+            elif any(alts):
                 out.append(("br", alts))
         elif isinstance(it, tuple) and it[0] == "loop":
             out.append(("loop", normalise(it[1])))
@@ -471,6 +509,10 @@ def flatten(items, rd):
             a = it["a"]
             if a == "APrim":
                 coq.append("APrim %s" % it["wire"]); txt.append("%s:%s[%s]" % (it["wire"], it["field"], it["type"]))
+            elif a == "ATag":
+                coq.append("ATag"); txt.append("tag")
+            elif a == "AKey":
+                coq.append("AKey %s %d" % (it["wire"], it["pos"])); txt.append("%s@key%d:%s[%s]" % (it["wire"], it["pos"], it["field"], it["type"]))
             elif a == "AStr":
                 coq.append("AStr %s" % ("true" if it["withbuf"] else "false")); txt.append("str%s:%s" % ("+buflen" if it["withbuf"] else "", it["field"]))
             elif a == "ARaw":
@@ -557,8 +599,131 @@ def scan():
     return rd, classes
 
 
+def crc(s):
+    import zlib
+    return zlib.crc32(re.sub(r"\s+", "", s).encode()) % 1000000007
+
+
+def scan_containers(rd):
+    """the storeObject/loadObject overload pairs of XTemplateSerializer.cpp, matched by the container type of their
+    first parameter: action lists of both bodies (tag, modulus/count, per-entry fields with the position of stored keys
+    in the enumerator's key tuple resp. in the insertion call) and the insertion call of the load side"""
+    f = os.path.join(SRC, "internal", "XTemplateSerializer.cpp")
+    raw = open(f, errors="replace").read()
+    defined = bool(re.search(r"^\s*#\s*define\s+XERCES_DEBUG_SORT_GRAMMAR", raw, re.M))
+    keep, stack, lines = True, [], []
+    for ln in raw.split("\n"):
+        s = ln.strip()
+        if re.match(r"#\s*ifdef\s+XERCES_DEBUG_SORT_GRAMMAR", s):
+            stack.append(keep); keep = keep and defined; lines.append(""); continue
+        if stack and re.match(r"#\s*else", s):
+            keep = stack[-1] and not defined; lines.append(""); continue
+        if stack and re.match(r"#\s*endif", s):
+            keep = stack.pop(); lines.append(""); continue
+        if re.match(r"#\s*if", s) and stack:
+            raise ValueError("nested preprocessor conditional inside XERCES_DEBUG_SORT_GRAMMAR")
+        lines.append(ln if keep else "")
+    src = "\n".join(lines)
+    t = strip_comments(src)
+    fns = {}
+    for m in re.finditer(r"\bvoid\s+XTemplateSerializer\s*::\s*(storeObject|loadObject)\s*\(", t):
+        q = match_brace(t, m.end() - 1, "(", ")")
+        params = t[m.end():q]
+        first = split_args(params)[0]
+        sig = re.sub(r"\bconst\b|\b\w+\s*$", "", first)
+        sig = re.sub(r"\s+", "", sig)
+        sig = re.sub(r"\*{1,2}$", "", sig)
+        eng = re.search(r"XSerializeEngine\s*&\s*(\w+)", params)
+        i = t.index("{", q)
+        j = match_brace(t, i)
+        fns.setdefault(sig, {})[m.group(1)] = (t[i + 1:j], eng.group(1) if eng else "serEng", t.count("\n", 0, m.start()) + 1,
+                                               re.search(r"(\w+)\s*$", first).group(1))
+    out = []
+    for sig in sorted(fns):
+        pair = fns[sig]
+        e = {"sig": sig, "unparsed": [], "line": min(v[2] for v in pair.values())}
+        if set(pair) != {"storeObject", "loadObject"}:
+            e["unparsed"].append("unpaired: only %s" % sorted(pair))
+        elem = re.search(r"<\s*(.*)>", sig)
+        elem_type = None
+        if elem and sig.startswith("ValueVectorOf"):
+            et = elem.group(1)
+            elem_type = {"unsignedint": "unsigned int"}.get(et, et)
+        for name in ("storeObject", "loadObject"):
+            if name not in pair:
+                e[name[:-6] + "_tree"] = []
+                continue
+            body, eng, line, var = pair[name]
+            store = name == "storeObject"
+            keyvars = {}
+            if store:
+                for m in re.finditer(r"nextElementKey\s*\(([^()]*)\)", body):
+                    for k, a in enumerate(split_args(m.group(1))):
+                        keyvars[a.strip()] = k + 1
+                for m in re.finditer(r"(\w+)\s*=\s*\(?\*?\w+\)?\s*->\s*elementAt\s*\(", body):
+                    keyvars[m.group(1)] = 1
+            else:
+                ins = []
+                for m in re.finditer(r"->\s*(put|addElement|setElementAt|insertElementAt)\s*\(", body):
+                    q = match_brace(body, m.end() - 1, "(", ")")
+                    args = [a.strip() for a in split_args(body[m.end():q])]
+                    for k, a in enumerate(args):
+                        a = re.sub(r"^\(.*?\)\s*", "", a)
+                        if re.match(r"^\w+$", a):
+                            keyvars.setdefault(a, k + 1)
+                    call = [m.group(1)] + args
+                    for a in args:       # where a key variable comes from is part of the reviewed signature
+                        v = re.sub(r"^\(.*?\)\s*", "", a)
+                        if re.match(r"^\w+$", v):
+                            for am in re.finditer(r"\b%s\s*=\s*([^;=][^;]*);" % v, body):
+                                call.append("%s=%s" % (v, " ".join(am.group(1).split())))
+                    ins.append(call)
+                e["insert"] = ins
+            ctx = {"cls": "XTemplateSerializer", "eng": eng, "locals": rd.locals_of(body), "filevars": {}, "unparsed": [],
+                   "returns": 0, "keyvars": keyvars, "elem_type": elem_type}
+            items = normalise(rd.walk(("block", parse_block(body)), ctx, store))
+            e[name[:-6] + "_tree"] = items
+            e["unparsed"] += ctx["unparsed"]
+            if not store and ctx.get("registered", 0) != 1:
+                e["unparsed"].append("loadObject does not register the container exactly once")
+        out.append(e)
+    def narrow(s, l, note):
+        """a typed read into a subclass pointer of what the store side holds as base pointer relies on the dynamic class"""
+        for a, b in zip(s, l):
+            if isinstance(a, tuple) and isinstance(b, tuple) and a[0] == b[0]:
+                if a[0] == "br":
+                    for x, y in zip(a[1], b[1]):
+                        narrow(x, y, note)
+                else:
+                    narrow(a[1], b[1], note)
+            elif isinstance(a, dict) and isinstance(b, dict) and a["a"] == b["a"] == "AObj" and a["cls"] != b["cls"]:
+                c, seen = b["cls"], 0
+                chain = [c]
+                while chain and seen < 20:
+                    seen += 1
+                    c = chain.pop()
+                    if c == a["cls"]:
+                        note.append("%s read as %s" % (a["cls"], b["cls"]))
+                        a["cls"] = b["cls"]
+                        break
+                    chain += rd.idx.classes.get(c, {}).get("bases", [])
+    for e in out:
+        e["narrowing"] = []
+        narrow(e["store_tree"], e["load_tree"], e["narrowing"])
+        e["store_coq"], e["store"] = flatten(e.pop("store_tree"), rd)
+        e["load_coq"], e["load"] = flatten(e.pop("load_tree"), rd)
+        e["unknown_types"] = [s for s in e["store"] + e["load"] if s.startswith("WUnknown")]
+        e["insert_hash"] = [[crc(x) for x in call] for call in e.get("insert", [])]
+    return out
+
+
 def generate():
     rd, classes = scan()
+    conts = scan_containers(rd)
+    for e in conts:
+        if e["sig"] not in rd.tmpl:
+            rd.tmpl[e["sig"]] = len(rd.tmpl) + 1
+        e["id"] = rd.tmpl[e["sig"]]
     level = read_level()
     bufsize = read_bufsize()
     lines = ["(** GENERATED by translator/c16_ser.py from %s/src/xercesc - do not edit.  %d classes. *)" % ("/repo", len(classes)),
@@ -578,19 +743,40 @@ def generate():
     parsed = [c for c in classes if not c["unparsed"]]
     lines.append("(** classes whose body was read completely (the others are covered by the correspondence only) *)")
     lines.append("Definition ser_parsed : list centry :=\n  [%s]." % "; ".join("ser_c%d" % c["id"] for c in parsed))
+    lines.append("")
+    lines.append("(** XTemplateSerializer.cpp: one entry per storeObject/loadObject overload pair; id = the ATmpl kind *)")
+    cparsed = [e for e in conts if not e["unparsed"]]
+    for e in conts:
+        lines.append("(* kind %d = %s   (XTemplateSerializer.cpp:%d)%s *)" % (e["id"], e["sig"].replace("*", "-ptr"), e["line"],
+                                                                            "  UNPARSED ITEMS: correspondence only" if e["unparsed"] else ""))
+        lines.append("Definition ser_t%d : centry := (%d, true,\n  [%s],\n  [%s])." % (
+            e["id"], e["id"], "; ".join(e["store_coq"]), "; ".join(e["load_coq"])))
+    lines.append("Definition ser_containers : list centry :=\n  [%s]." % "; ".join("ser_t%d" % e["id"] for e in cparsed))
+    lines.append("(** insertion call of each loadObject: (crc of the container signature, [[crc of callee; crc of each argument]]) *)")
+    lines.append("Definition ser_container_inserts : list insert_sig :=\n  [%s]." % ";\n   ".join(
+        "(%d%%N, [%s])" % (crc(e["sig"]), "; ".join("[%s]" % "; ".join("%d%%N" % h for h in call) for call in e["insert_hash"]))
+        for e in cparsed))
     V.write_if_changed(os.path.join(V.COQ, "theories", "Gen", "GenSerialize.v"), "\n".join(lines) + "\n")
     obl = ["(** GENERATED by translator/c16_ser.py - one obligation per class with a completely read serialize() body:",
            "    after inlining the base-class calls, the store branch and the load branch issue the same sequence of",
            "    wire-level actions (same length, same order, same width/kind at every position). *)",
-           "From XV Require Import Base.XDefs C16.Model16 Gen.GenSerialize.", ""]
+           "From XV Require Import Base.XDefs C16.Model16 C16.Containers16 Gen.GenSerialize.", ""]
     for c in parsed:
         obl.append("Lemma T16_sym_%s : class_obligation ser_classes ser_c%d = true.\nProof. vm_compute. reflexivity. Qed." % (c["name"], c["id"]))
+    for e in cparsed:
+        obl.append("Lemma T16_tmpl_%d : container_ok ser_t%d = true. (* %s *)\nProof. vm_compute. reflexivity. Qed." % (
+            e["id"], e["id"], e["sig"].replace("*", "-ptr")))
+    obl.append("Lemma T16_tmpl_all : forallb container_ok ser_containers = true.\nProof. vm_compute. reflexivity. Qed.")
+    obl.append("Lemma T16_tmpl_covered : tmpl_covered ser_parsed ser_containers = true.\nProof. vm_compute. reflexivity. Qed.")
+    obl.append("Lemma T16_tmpl_inserts : inserts_ok pinned_container_inserts ser_container_inserts = true.\nProof. vm_compute. reflexivity. Qed.")
     obl.append("")
     obl.append("Lemma T16_sym_all : forallb (class_obligation ser_classes) ser_parsed = true.\nProof. vm_compute. reflexivity. Qed.")
     obl.append("Lemma ser_level_pos : (0 < ser_level < 4294967296)%N.\nProof. vm_compute. split; reflexivity. Qed.")
     obl.append("Lemma ser_bufsize_min : (8 <= ser_bufsize)%N.\nProof. vm_compute. discriminate. Qed.")
     V.write_if_changed(os.path.join(V.COQ, "theories", "Gen", "GenSerializeObl.v"), "\n".join(obl) + "\n")
     side = {"level": level, "bufsize": bufsize, "class_ids": rd.cls_ids, "template_kinds": rd.tmpl, "helpers": rd.helpers,
+            "containers": [{k: e[k] for k in ("id", "sig", "line", "store", "load", "unparsed", "unknown_types", "narrowing", "insert")}
+                           for e in conts],
             "classes": [{k: c[k] for k in ("id", "name", "file", "line", "creatable", "declared_nocreate", "store", "load",
                                            "unparsed", "unknown_types")} for c in classes]}
     os.makedirs(os.path.join(V.VERIF, "gen"), exist_ok=True)
